@@ -5,6 +5,7 @@ import SpoxModel.Model.Naming
 import SpoxModel.Model.InlineCheck
 import SpoxModel.Generated.Dtypes
 import SpoxModel.Model.InternalReq
+import SpoxModel.Model.Func
 /-! Line-protocol handler for C02: (a) `ScopeSpace` operation sequences, (b) the structural checker on
     a named graph (the real ModelProto), (c) the naming model on an emission tree. -/
 namespace Drv.C02
@@ -202,6 +203,14 @@ def handle (req : Json) : Json :=
         | Json.null => (pure none : Except String (Option Types.Ty))
         | _ => do let t ← parseTensor j; pure (some t))
       return Json.mkObj [("accept", InlineCheck.accepts Generated.Dtypes.table decls args)]
+    | "policy" =>
+      let rJ ← req.getObjValAs? (Array Json) "req"
+      let rs ← rJ.toList.mapM (fun j => do
+        let a ← fromJson? (α := Array Json) j
+        let d ← (a[0]!).getStr?
+        let v ← (a[1]!).getNat?
+        pure (d, v))
+      return Json.mkObj [("policy", Json.arr ((Func.policy rs).map (fun (p : String × Nat) => Json.arr #[toJson p.1, toJson p.2])).toArray)]
     | "intro_req" =>
       let ksJ ← req.getObjValAs? (Array String) "kinds"
       let ks ← ksJ.toList.mapM (fun s => match s with
